@@ -151,6 +151,26 @@ union PO = Post | Other
 type Query { n: Node d: Draft dd: Deep o: Orphan s: Shared po: PO }
 ";
 
+/// Root types named in the schema block while ordinary object types carry the default root names.
+pub const DECOY: &str = "
+schema { query: Q mutation: BillingMutations subscription: BillingEvents }
+type Q { a: Int subscription: Subscription mutation: Mutation query: Query }
+type BillingMutations { renew(id: ID!, months: Int = 1): Subscription cancel(id: ID!): Boolean }
+type BillingEvents { renewed(id: ID): Subscription expired: Subscription }
+type Subscription { id: ID plan: String renew: Int }
+type Mutation { id: ID note: String }
+type Query { zz: Int }
+";
+
+/// Four composite types whose names collide when two are written one after the other: Node+ListItem = NodeList+Item.
+pub const CONCAT: &str = "
+interface Node { id: ID }
+type ListItem implements Node { id: ID  v: Int }
+type NodeList { id: ID  items: [ListItem]  n: Node }
+type Item { id: ID }
+type Query { node: Node  list: NodeList  item: Item  li: ListItem }
+";
+
 pub fn pool() -> Vec<(&'static str, String)> {
     vec![
         ("test", format!("{}{}", TEST_SCHEMA, PRELUDE)),
@@ -195,4 +215,6 @@ type W implements J { g(i: Int, r: Int!): Int  w: W  j: J }
 type Query { f(i: Int, r: Int!, d: Int! = 1): Int  w: W  j: J  plain: Int }
 directive @dir(x: Int, y: Int!) repeatable on QUERY | FIELD | FRAGMENT_SPREAD | INLINE_FRAGMENT | FRAGMENT_DEFINITION
 directive @noargs on FIELD
+directive @tsOnly(x: Int, y: Int!) on FIELD_DEFINITION | OBJECT
+directive @mixed(y: Int!) on FIELD | FIELD_DEFINITION
 ";
